@@ -5,6 +5,10 @@ Parser{..}.filter_map(Result::ok)` loop), `VersionInfo::{try_from, visit, fixed,
 strings, file_info, source_code}`, the six `Visit` implementations, `Language::parse`,
 `util::FmtUtf16` and the parts of `char::decode_utf16` / `String::from_utf16_lossy` they use.
 
+`parse_tlv` and the terminator stripping of `visit` index and slice with panicking operations
+(`Sl.idx`, `Sl.sliceFrom`, `Sl.sliceTo`), one at each `words[i]` / `&words[a..b]` of the Rust code;
+`parseTlv_eq_total` and `stripNulChk_eq` prove the panic outcomes unreachable.
+
 The block is a list of u16 words (`Nat`, `< 65536` when it comes from bytes).  A Rust `&[u16]` is
 a `Sl`: the word offset of its first element from the start of the block plus the words it views,
 so that both the contents and the extent of everything handed to a visitor are explicit.
@@ -60,34 +64,189 @@ structure Tlv where
   | .bytes => some (words.ws.getD 1 0 / 2)
   | .words => some (words.ws.getD 1 0)
 
-/-- src: version_info.rs:parse_tlv.  Returns the TLV and the new `state.words` (on `Err` the caller,
-`Parser::next`, empties `state.words`, so the value assigned before the error is never observed). -/
+/-! ### slicing and indexing of a checked build
+
+`a[i]`, `&a[n..]` and `&a[..n]` panic when the index or the bound is out of range.  `parse_tlv` is
+written with them at exactly the places where the Rust code indexes or slices; that none of the
+`panic` outcomes is reachable is a theorem (`parseTlv_eq_total` below), not a convention. -/
+
+namespace Sl
+/-- `s[i]`: panics when `i ≥ s.len()` -/
+@[inline] def idx (s : Sl) (i : Nat) (site : String) : Out Nat :=
+  if i < s.len then .ok (s.ws.getD i 0) else .panic site
+/-- `&s[n..]`: panics when `n > s.len()` -/
+@[inline] def sliceFrom (s : Sl) (n : Nat) (site : String) : Out Sl :=
+  if n ≤ s.len then .ok (s.drop n) else .panic site
+/-- `&s[..n]`: panics when `n > s.len()` -/
+@[inline] def sliceTo (s : Sl) (n : Nat) (site : String) : Out Sl :=
+  if n ≤ s.len then .ok (s.take n) else .panic site
+
+theorem idx_ok {s : Sl} {i : Nat} (h : i < s.len) (site : String) : s.idx i site = .ok (s.ws.getD i 0) := if_pos h
+theorem sliceFrom_ok {s : Sl} {n : Nat} (h : n ≤ s.len) (site : String) : s.sliceFrom n site = .ok (s.drop n) := if_pos h
+theorem sliceTo_ok {s : Sl} {n : Nat} (h : n ≤ s.len) (site : String) : s.sliceTo n site = .ok (s.take n) := if_pos h
+theorem idx_panic {s : Sl} {i : Nat} (h : ¬ i < s.len) (site : String) : s.idx i site = .panic site := if_neg h
+theorem sliceFrom_panic {s : Sl} {n : Nat} (h : ¬ n ≤ s.len) (site : String) : s.sliceFrom n site = .panic site := if_neg h
+theorem sliceTo_panic {s : Sl} {n : Nat} (h : ¬ n ≤ s.len) (site : String) : s.sliceTo n site = .panic site := if_neg h
+end Sl
+
+def siteLen : String := "version_info.rs:parse_tlv words[0]"
+def siteVLen : String := "version_info.rs:parse_tlv words[1]"
+def siteRest : String := "version_info.rs:parse_tlv &words[cmp::min(length.align_to(2), words.len())..]"
+def siteNode : String := "version_info.rs:parse_tlv &words[..length]"
+def siteKey : String := "version_info.rs:parse_tlv &words[3..]"
+def siteBody : String := "version_info.rs:parse_tlv &words[cmp::min(key.len().align_to(2) + 4, words.len())..]"
+def siteValue : String := "version_info.rs:parse_tlv &words[..value_length]"
+def siteChildren : String := "version_info.rs:parse_tlv &words[cmp::min(value.len().align_to(2), words.len())..]"
+
+/-- src: version_info.rs:parse_tlv, every `words[i]` / `&words[a..b]` of the Rust code a panicking
+operation.  Returns the TLV and the new `state.words` (on `Err` the caller, `Parser::next`, empties
+`state.words`, so the value assigned before the error is never observed).
+`key.len().align_to(2) + 4` cannot overflow: a `&[u16]` has fewer than 2^62 elements (a Rust slice
+is at most `isize::MAX` bytes). -/
 def parseTlv (vlt : Vlt) (words : Sl) : Out (Tlv × Sl) :=
+  if words.len < 4 then .err .invalid else do
+  -- let length = cmp::max(4, words[0] as usize / 2);
+  let w0 ← words.idx 0 siteLen
+  let length := max 4 (w0 / 2)
+  -- let value_length = match state.vlt { .. words[1] .. };
+  let valueLength ← (match vlt with
+    | .zero => do
+      let w1 ← words.idx 1 siteVLen
+      if w1 = 0 then pure 0 else .err .invalid
+    | .bytes => do
+      let w1 ← words.idx 1 siteVLen
+      pure (w1 / 2)
+    | .words => words.idx 1 siteVLen : Out Nat)
+  if length > words.len then .err .invalid else do
+  -- state.words = &words[cmp::min(length.align_to(2), words.len())..];
+  let rest ← words.sliceFrom (min (align2 length) words.len) siteRest
+  -- words = &words[..length];
+  let node ← words.sliceTo length siteNode
+  -- let key = wstrn(&words[3..]);
+  let tail ← node.sliceFrom 3 siteKey
+  let key := wstrn tail
+  -- if words[3..].len() == key.len()
+  let tail' ← node.sliceFrom 3 siteKey
+  if tail'.len = key.len then .err .invalid else do
+  -- words = &words[cmp::min(key.len().align_to(2) + 4, words.len())..];
+  let body ← node.sliceFrom (min (align2 key.len + 4) node.len) siteBody
+  if valueLength > body.len then .err .invalid else do
+  -- let value = &words[..value_length];
+  let value ← body.sliceTo valueLength siteValue
+  -- let children = &words[cmp::min(value.len().align_to(2), words.len())..];
+  let children ← body.sliceFrom (min (align2 value.len) body.len) siteChildren
+  pure (⟨key, value, children⟩, rest)
+
+/-- `parse_tlv` with total `take` / `drop` in place of the panicking operations: what `parseTlv`
+computes once its panic branches are known to be unreachable.  Not run by the driver; the lemmas
+about `parseTlv` go through it. -/
+def parseTlvTotal (vlt : Vlt) (words : Sl) : Out (Tlv × Sl) :=
   if words.len < 4 then .err .invalid else
   let length := nodeLen words
   match valueLen vlt words with
   | none => .err .invalid
   | some valueLength =>
     if length > words.len then .err .invalid else
-    -- state.words = &words[cmp::min(length.align_to(2), words.len())..];
     let rest := words.drop (min (align2 length) words.len)
-    -- words = &words[..length];
     let node := words.take length
-    -- let key = wstrn(&words[3..]);
     let tail := node.drop 3
     let key := wstrn tail
     if tail.len = key.len then .err .invalid else
-    -- words = &words[cmp::min(key.len().align_to(2) + 4, words.len())..];
     let body := node.drop (min (align2 key.len + 4) node.len)
     if valueLength > body.len then .err .invalid else
     let value := body.take valueLength
     let children := body.drop (min (align2 value.len) body.len)
     .ok (⟨key, value, children⟩, rest)
 
+/-- the part of `parse_tlv` after the value length has been determined -/
+theorem parseTlv_tail_eq (words : Sl) (valueLength : Nat) :
+    (if max 4 (words.ws.getD 0 0 / 2) > words.len then Out.err Err.invalid
+        else do
+          let rest ← words.sliceFrom (min (align2 (max 4 (words.ws.getD 0 0 / 2))) words.len) siteRest
+          let node ← words.sliceTo (max 4 (words.ws.getD 0 0 / 2)) siteNode
+          let tail ← node.sliceFrom 3 siteKey
+          let tail' ← node.sliceFrom 3 siteKey
+          if tail'.len = (wstrn tail).len then Out.err Err.invalid
+            else do
+              let body ← node.sliceFrom (min (align2 (wstrn tail).len + 4) node.len) siteBody
+              if valueLength > body.len then Out.err Err.invalid
+                else do
+                  let value ← body.sliceTo valueLength siteValue
+                  let children ← body.sliceFrom (min (align2 value.len) body.len) siteChildren
+                  pure (({ key := wstrn tail, value := value, children := children } : Tlv), rest)) =
+      (if nodeLen words > words.len then Out.err Err.invalid
+      else
+        let rest := words.drop (min (align2 (nodeLen words)) words.len)
+        let node := words.take (nodeLen words)
+        let tail := node.drop 3
+        let key := wstrn tail
+        if tail.len = key.len then .err .invalid else
+        let body := node.drop (min (align2 key.len + 4) node.len)
+        if valueLength > body.len then .err .invalid else
+        let value := body.take valueLength
+        let children := body.drop (min (align2 value.len) body.len)
+        .ok (⟨key, value, children⟩, rest)) := by
+  have hnl : max 4 (words.ws.getD 0 0 / 2) = nodeLen words := rfl
+  simp only [hnl]
+  by_cases hL : nodeLen words > words.len
+  · simp only [hL, if_true]
+  · simp only [hL, if_false]
+    -- &words[cmp::min(length.align_to(2), words.len())..]: the bound is clamped to the length
+    rw [Sl.sliceFrom_ok (Nat.min_le_right _ _)]
+    -- &words[..length]: `length > words.len()` has returned
+    rw [Sl.sliceTo_ok (Nat.le_of_not_gt hL)]
+    simp only [Out.bind_ok]
+    -- &words[3..]: the node has `length = max(4, _)` words
+    have h3 : 3 ≤ (words.take (nodeLen words)).len := by
+      have := Nat.le_max_left 4 (words.ws.getD 0 0 / 2)
+      rw [hnl] at this
+      simp only [Sl.len, Sl.take, List.length_take] at *
+      omega
+    rw [Sl.sliceFrom_ok h3]
+    simp only [Out.bind_ok]
+    split
+    · rfl
+    · -- &words[cmp::min(key.len().align_to(2) + 4, words.len())..]: clamped
+      rw [Sl.sliceFrom_ok (Nat.min_le_right _ _)]
+      simp only [Out.bind_ok]
+      split
+      · rfl
+      · rename_i hv
+        -- &words[..value_length]: `value_length > words.len()` has returned
+        rw [Sl.sliceTo_ok (Nat.le_of_not_gt hv)]
+        simp only [Out.bind_ok]
+        -- &words[cmp::min(value.len().align_to(2), words.len())..]: clamped
+        rw [Sl.sliceFrom_ok (Nat.min_le_right _ _)]
+        rfl
+
+/-- **No index and no slice bound of `parse_tlv` is ever out of range**: each panicking operation
+is preceded by a check (or a `cmp::min` / `cmp::max` clamp) that implies its range condition, so
+the checked function is the total one. -/
+theorem parseTlv_eq_total (vlt : Vlt) (words : Sl) : parseTlv vlt words = parseTlvTotal vlt words := by
+  unfold parseTlv parseTlvTotal
+  by_cases h4 : words.len < 4
+  · simp only [h4, if_true]
+  · simp only [h4, if_false]
+    -- words[0], words[1]: `words.len() < 4` has returned
+    have i0 : 0 < words.len := by omega
+    have i1 : 1 < words.len := by omega
+    simp only [Sl.idx_ok i0, Sl.idx_ok i1, Out.bind_ok]
+    cases vlt
+    · simp only [valueLen]
+      by_cases h1 : words.ws.getD 1 0 = 0
+      · simp only [h1, if_true, Out.pure_eq, Out.bind_ok]
+        exact parseTlv_tail_eq words 0
+      · simp only [h1, if_false, Out.bind_err]
+    · simp only [valueLen, Out.pure_eq, Out.bind_ok]
+      exact parseTlv_tail_eq words _
+    · simp only [valueLen, Out.bind_ok]
+      exact parseTlv_tail_eq words _
+
 /-- every successful `parse_tlv` shortens the parser's input: the loop below terminates -/
 theorem parseTlv_rest_lt {vlt : Vlt} {words : Sl} {t : Tlv} {rest : Sl}
     (h : parseTlv vlt words = .ok (t, rest)) : rest.len < words.len := by
-  unfold parseTlv at h
+  rw [parseTlv_eq_total] at h
+  unfold parseTlvTotal at h
   dsimp only at h
   repeat' (split at h)
   all_goals first
@@ -143,9 +302,32 @@ def strStringFileInfo : List Nat := [83, 116, 114, 105, 110, 103, 70, 105, 108, 
 def strVarFileInfo : List Nat := [86, 97, 114, 70, 105, 108, 101, 73, 110, 102, 111]
 def strTranslation : List Nat := [84, 114, 97, 110, 115, 108, 97, 116, 105, 111, 110]
 
-/-- "Strip the nul terminator...": `if value.last() != Some(&0) { value } else { &value[..len-1] }` -/
+/-- "Strip the nul terminator...": `if value.last() != Some(&0) { value } else { &value[..len-1] }`
+(total form, see `stripNulChk`) -/
 def stripNul (v : Sl) : Sl :=
   if v.ws.getLast? ≠ some 0 then v else v.take (v.len - 1)
+
+def siteStripSub : String := "version_info.rs:visit string.value.len() - 1 (attempt to subtract with overflow)"
+def siteStrip : String := "version_info.rs:visit &string.value[..string.value.len() - 1]"
+
+/-- src: version_info.rs:visit "Strip the nul terminator..." as a checked build runs it: the `usize`
+subtraction panics on underflow, the slicing when its bound is out of range. -/
+def stripNulChk (v : Sl) : Out Sl :=
+  if v.ws.getLast? ≠ some 0 then .ok v else
+  if v.len < 1 then .panic siteStripSub else
+  v.sliceTo (v.len - 1) siteStrip
+
+/-- neither panic is reachable: a slice whose last word is `0` is not empty -/
+theorem stripNulChk_eq (v : Sl) : stripNulChk v = .ok (stripNul v) := by
+  unfold stripNulChk stripNul
+  by_cases h : v.ws.getLast? ≠ some 0
+  · rw [if_pos h, if_pos h]
+  · rw [if_neg h, if_neg h]
+    have hne : ¬ v.len < 1 := by
+      intro hlt
+      have h0 : v.ws = [] := List.eq_nil_of_length_eq_zero (by simp only [Sl.len] at hlt; omega)
+      exact h (by rw [h0]; simp)
+    rw [if_neg hne, Sl.sliceTo_ok (Nat.sub_le _ _)]
 
 def siteFixed : String := "version_info.rs:visit &*(value.as_ptr() as *const VS_FIXEDFILEINFO)"
 
@@ -161,7 +343,10 @@ variable {σ : Type} (V : Visitor σ)
 
 /-- innermost loop of `visit`: the strings of one string table -/
 def visitStrings (children : Sl) (s : σ) : Out σ :=
-  forEach .words (fun str s => .ok (V.string s str.key (stripNul str.value), true)) children s
+  forEach .words (fun str s =>
+    match stripNulChk str.value with
+    | .ok value => .ok (V.string s str.key value, true)
+    | .err e => .err e | .panic m => .panic m | .ub m => .ub m | .diverge => .diverge) children s
 
 /-- the string tables of a `StringFileInfo` block -/
 def visitTables (children : Sl) (s : σ) : Out σ :=
